@@ -180,12 +180,24 @@ concat = Fn(F, "concat", impl="BigInt", ret="res", props=["C05", "C03", "C19"],
                 Insert("        result.size = Some(lhs_size + rhs_size);", "        proof { lemma_bits_bound(result.val(), (lhs_size + rhs_size) as nat); }\n", where="before"),
             ])
 
+def _opimpl(trait, method, old, new):
+    return Impl(F, "std::ops::%s for &BigInt" % trait, props=["C05"], fns={
+        method: Fn(F, method, key="BigInt::%s" % method, props=["C05"],
+                   rewrites=[Rewrite(old, new, rule=R3, why="operator on reference operands -> UFCS desugaring")])})
+
+OP_IMPLS = [
+    _opimpl("Neg", "neg", "(-&self.bigint)", "core::ops::Neg::neg(&self.bigint)"),
+    _opimpl("BitAnd", "bitand", "(&self.bigint & &rhs.bigint)", "core::ops::BitAnd::bitand(&self.bigint, &rhs.bigint)"),
+    _opimpl("BitOr", "bitor", "(&self.bigint | &rhs.bigint)", "core::ops::BitOr::bitor(&self.bigint, &rhs.bigint)"),
+    _opimpl("BitXor", "bitxor", "(&self.bigint ^ &rhs.bigint)", "core::ops::BitXor::bitxor(&self.bigint, &rhs.bigint)"),
+]
+
 ALL_FNS = [new, min_size, sign, size_or_min_size, set_bit, get_bit, maybe_into, checked_into, checked_into_nonzero_usize,
            checked_add, checked_sub, checked_mul, checked_div, checked_mod, checked_shl, checked_shr,
            slice_, checked_slice, concat]
 
 
-def items(mode, slot="util", only=None):
+def items(mode, slot="util", only=None, with_ops=False):
     out = [t.in_slot(slot) for t in TYPES]
     for f in ALL_FNS:
         if only is not None and f.name not in only:
@@ -193,10 +205,10 @@ def items(mode, slot="util", only=None):
         g = f.in_slot(slot)
         g.mode = mode
         out.append(g)
-    im = from_impl
     import copy
-    im2 = copy.copy(im)
-    im2.slot = slot
-    im2.mode = mode
-    out.append(im2)
+    for im in [from_impl] + (OP_IMPLS if (mode == "verify" or with_ops) else []):
+        im2 = copy.copy(im)
+        im2.slot = slot
+        im2.mode = mode
+        out.append(im2)
     return out
